@@ -23,9 +23,9 @@ from vlib import core
 # False: the mirror of the code as it is (a build that fails before the skip
 # decision leaves the old output in place).  True: the repaired builders
 # (every failing return removes the builder's output first).
-STALE_FIXED = False
+STALE_FIXED = True
 # False: the cache string does not record the builders' type parameter
-ST_IN_CACHE = False
+ST_IN_CACHE = True
 
 K_STALE = "stale generated file survives a build that fails with a grammar/lexer syntax error"
 K_LEXOUT = "lexer output of an earlier build survives a build that fails at the parser's conflict check"
@@ -403,7 +403,7 @@ def run(ctx):
 
 def _run(ctx, exe, mexe, rng):
     hs = targeted_histories()
-    for _ in range(ctx.n(40, 600)):
+    for _ in range(ctx.n(150, 2500)):
         mode = "C" if rng.random() < 0.6 else "P"
         g0 = rng.choice(VALID_G + VALID_G + CONF_G + WARN_G)
         l0 = rng.choice(VALID_L)
@@ -489,6 +489,12 @@ def _run(ctx, exe, mexe, rng):
                     if cls in ("err_ysyntax", "err_ywarn", "err_lsyntax") and not STALE_FIXED:
                         nprop["stale"] += 1
                         ctx.violation(w, known_key=K_STALE)
+                    elif (cls == "panic" and stale_y and not stale_l and not ST_IN_CACHE and st_only_diff(my, mcy)
+                          and bij(my, a["y"]) and bij(mcy, a["cy"])):
+                        # the parser stage succeeded without regenerating for a new type parameter,
+                        # then the lexer stage failed
+                        nprop["st"] += 1
+                        ctx.violation(w, known_key=K_ST)
                     elif cls == "err_yconflict" and stale_l and not stale_y and not STALE_FIXED:
                         nprop["lexout"] += 1
                         ctx.violation(w, known_key=K_LEXOUT)
